@@ -453,6 +453,54 @@ pub fn sweep<T>(ctx: &mut Ctx, c: &Codec<T>, values: &[T]) {
             }
         }
     }
+    // a count raised by one with an element inserted / lowered by one with an element removed:
+    // every position holding a small big-endian integer (width 1, 2, 4, 8; value 1..=8) is taken
+    // for an element count in front of `value` elements of every size from 1 to 140 bytes; the
+    // inserted element is a copy of the last one (equal key: a duplicate) or of the first one
+    // appended (keys out of order). For values of at most 600 bytes; quick: first two values.
+    for (vi, v) in values.iter().enumerate() {
+        let e = (c.enc)(v);
+        if e.len() > 600 || e.len() < 3 || (quick && vi >= 2) {
+            continue;
+        }
+        let max_es = if quick { 72 } else { 140 };
+        let thin = if quick { (e.len() * 4 * max_es * c.cost).div_ceil(300_000).max(1) } else { 1 };
+        let mut k = 0usize;
+        for wdt in [1usize, 2, 4, 8] {
+            for p in 0..e.len().saturating_sub(wdt) {
+                let val = e[p..p + wdt].iter().fold(0u64, |a, b| (a << 8) | *b as u64);
+                if val == 0 || val > 8 {
+                    continue;
+                }
+                let put = |n: u64| -> Vec<u8> { (0..wdt).map(|i| (n >> (8 * (wdt - 1 - i))) as u8).collect() };
+                for es in 1..=max_es {
+                    let end = p + wdt + val as usize * es;
+                    if end > e.len() {
+                        break;
+                    }
+                    k += 1;
+                    if k % thin != 0 {
+                        continue;
+                    }
+                    let first = &e[p + wdt..p + wdt + es];
+                    let last = &e[end - es..end];
+                    for (what, ins) in [("count + 1, last element duplicated", last), ("count + 1, first element appended", first)] {
+                        let mut x = e[..p].to_vec();
+                        x.extend(put(val + 1));
+                        x.extend_from_slice(&e[p + wdt..end]);
+                        x.extend_from_slice(ins);
+                        x.extend_from_slice(&e[end..]);
+                        probe(ctx, c, what, &x);
+                    }
+                    let mut x = e[..p].to_vec();
+                    x.extend(put(val - 1));
+                    x.extend_from_slice(&e[p + wdt..end - es]);
+                    x.extend_from_slice(&e[end..]);
+                    probe(ctx, c, "count - 1, last element removed", &x);
+                }
+            }
+        }
+    }
     if c.short_inputs {
         probe(ctx, c, "short input", &[]);
         for a in 0..=255u8 {
